@@ -16,14 +16,16 @@
 (***************************************************************************)
 EXTENDS Naturals, Sequences, FiniteSets
 
-Kinds == {"none", "T", "T!", "[T]", "[T!]!"}
+\* "[T]+T" / "T+[T]": TWO members referring to the same type, a list and a plain one, declared in that order
+\* (`input Filter { and: [Filter], not: Filter }`): the list member gives indirection, the plain one does not
+Kinds == {"none", "T", "T!", "[T]", "[T!]!", "[T]+T", "T+[T]"}
 ListKinds == {"[T]", "[T!]!"}
-NullableKinds == {"none", "T", "[T]"}
+NullableKinds == {"none", "T", "[T]", "[T]+T", "T+[T]"}
 
 \* g : [ (1..n) \X (1..n) -> Kinds ]
 Nodes(n) == 1..n
 IsList(k) == k \in ListKinds
-ByValueEdge(g, i, j) == g[<<i, j>>] \in {"T", "T!"}
+ByValueEdge(g, i, j) == g[<<i, j>>] \in {"T", "T!", "[T]+T", "T+[T]"}
 
 (* ---- model of the code: DFS with a visited set shared across siblings ---- *)
 \* Visit(g, n, cur, target, visited) = [found, visited]: does `cur` contain `target` without indirection?
